@@ -151,6 +151,16 @@ class Effects:
                         al.setdefault(x.id, []).append(it)
         return al
 
+    def _reaching_aliases(self, f, name_node, aliases):
+        """The alias table with the entry of ``name_node`` cut down to the assignments that reach this use."""
+        from ..model import reaching_values
+        vals = reaching_values(f.node, name_node)
+        if not vals:
+            return aliases
+        out = dict(aliases)
+        out[name_node.id] = vals
+        return out
+
     def _class_object(self, f, e):
         """Is ``e`` an expression denoting a class object (type(self), self.__class__, cls of a classmethod)?"""
         if isinstance(e, ast.Call) and isinstance(e.func, ast.Name) and e.func.id == 'type' and len(e.args) == 1:
@@ -274,6 +284,12 @@ class Effects:
                             why = self._shared_base(f, sub.value, aliases)
                             if why:
                                 out.append((n, 'attribute %s of an object taken from shared state (%s)' % (sub.attr, why)))
+                    elif isinstance(sub, ast.Name) and isinstance(n, ast.AugAssign) and self.cg._is_local(f, sub.id) \
+                            and not (isinstance(n.value, ast.Constant) and isinstance(n.value.value, (int, float, str, bytes))) \
+                            and self._shared_base(f, sub, self._reaching_aliases(f, sub, aliases)):
+                        # x = SHARED; x += more : for a list / set / dict `+=`, `|=` ... change the shared object in place
+                        out.append((n, 'in-place %s on a local that denotes shared state (%s)' % (
+                            type(n.op).__name__, self._shared_base(f, sub, self._reaching_aliases(f, sub, aliases)))))
                     elif isinstance(sub, ast.Name) and isinstance(n, (ast.Assign, ast.AugAssign)):
                         # rebinding a module global
                         for g in walk_own(f.node):
@@ -377,20 +393,29 @@ def eff_1(ctx, rep, only=None, minimum=60):
             h = mf.mod.funcs.get(hname)
             if h is not None and all(c == mkey or c in memo_parts for c, tgts in ctx.cg.edges.items() if h.key in tgts):
                 memo_parts[h.key] = mkey
+    # the container a memo function stores into: only writes to it are part of the memo (a helper of the memo function
+    # that changes *another* module-level object is a shared write like any other - seed rt13-C18)
+    import re as _re
+    memo_globals = {}
+    for mkey in ALLOWED_SHARED_WRITES:
+        mf = ctx.prog.funcs.get(mkey)
+        if mf is not None:
+            memo_globals[mkey] = {m.group(1) for _n, why in eff.shared_writes(mf) for m in [_re.search(r'module global ([\w.]+)', why)] if m}
     for key in sorted(reach):
         f = ctx.prog.funcs[key]
         writes = eff.shared_writes(f)
         if key in build_only:
             # table-building phase (first use of a grammar): the objects written are the ones under construction;
             # only writes to module-level state count here
-            writes = [(n, why) for n, why in writes if why.startswith(('module global', 'rebinds module global', 'class-level'))]
+            writes = [(n, why) for n, why in writes if why.startswith(('module global', 'rebinds module global', 'class-level'))
+                      or (why.startswith('in-place') and ('module global' in why or 'class-level' in why))]
         if not writes:
             rep.ob('EFF-1', key[0], key[1], 'def %s' % f.name, True)
             continue
         for n, why in writes:
             if key in ALLOWED_SHARED_WRITES:
                 rep.ob('EFF-1', key[0], key[1], norm(n), True, reason=ALLOWED_SHARED_WRITES[key])
-            elif key in memo_parts:
+            elif key in memo_parts and any(('module global %s' % g) in why for g in memo_globals.get(memo_parts[key], ())):
                 rep.ob('EFF-1', key[0], key[1], norm(n), True,
                        reason='helper called only by %s: %s' % (memo_parts[key][1], ALLOWED_SHARED_WRITES[memo_parts[key]]))
             else:
